@@ -36,6 +36,7 @@ FIXED = [
  ("C09", "20494f4", "a copy of an array of dynamic items shared the source's Python-side item-offset cache (a live view of the source buffer's table when the source is a view)", "corpus/C09/copy_shares_offset_cache.json"),
  ("C10", "be24ecd", "Struct._update by byte copy left the handle's cached offsets of dynamic fields stale when the assigned struct splits the same size differently", "corpus/C10/struct_other_split_by_copy.json"),
  ("C09", "5f3b487", "Array._update left the handle's cached _size stale after a shrinking whole-array update: a later copy of that object was refused", "corpus/C09/second_copy_after_shrinking_update.json"),
+ ("C19", "56f1ce4", "to_dict compared an array field with its default by broadcasting: a value of another length raised ValueError (or was wrongly omitted when it broadcasts to the default)", "corpus/C19/array_default_other_length.json"),
 ]
 _STALE = ("a whole-object update that moves the parts of a root array of dynamically sized items (or of a root struct with two or more dynamic "
           "fields), made through a view (_from_buffer) of that object, leaves the constructor handle's cached offsets stale: reads through the old "
